@@ -921,13 +921,16 @@ theorem unknown_stream_spec (cfg : Cfg) (c : Conn) (sp : St) (s : UniAccept.St) 
     · simp [acceptArrival, acceptKind, hw]
   | unknown t => simp [acceptArrival, acceptKind, H3_STREAM_CREATION_ERROR, CODE_H3_STREAM_CREATION_ERROR]
 
-/-- the RFC-by-the-letter table differs from the property's table only in the rules of server push -/
+/-- the RFC-by-the-letter table differs from the property's table only in the rules of server push
+    and in the closing of a peer QPACK stream (RFC 9204 §4.2; reading R-04e) -/
 theorem rfc_table_differs (server : Bool) (sp : St) (e : Ev) :
     verdictRfc server sp e = verdict server sp e ∨
-    e = .stream .push ∨ (∃ id, e = .ctl (.cancelPush id)) ∨ (∃ id, e = .ctl (.maxPushId id) ∧ server = true) := by
+    e = .stream .push ∨ (∃ id, e = .ctl (.cancelPush id)) ∨ (∃ id, e = .ctl (.maxPushId id) ∧ server = true) ∨
+    e = .qpackClosed := by
   cases e with
   | stream t => cases t <;> simp [verdictRfc]
   | closedEarly => simp [verdictRfc]
+  | qpackClosed => simp
   | ctl ce =>
     by_cases h : (sp.control && sp.settings) = true
     · have hc : sp.control = true := by simp at h; exact h.1
